@@ -150,8 +150,22 @@ def build_lib(flavour, variant="", extra_flags=(), per_file_flags=None, exclude=
             continue
         f = fl + list((per_file_flags or {}).get(os.path.basename(s), []))
         jobs.append((s, os.path.join(odir, rel.replace("/", "_") + ".o"), f))
-    mocsrc = moc(os.path.join(SRC, "sinks", "signalsink.h"), os.path.join(odir, "moc_signalsink.cpp"))
-    jobs.append((mocsrc, os.path.join(odir, "moc_signalsink.o"), fl))
+    # moc for every header that declares a QObject class (today only sinks/signalsink.h; a change may add more)
+    for root, _dirs, files in os.walk(SRC):
+        if "/build" in root:
+            continue
+        for f in sorted(files):
+            if not f.endswith(".h") or f in ("oslogsink.h", "androidlogsink.h", "windebugsink.h", "httpsink.h", "hostinfoattrs.h", "sdjournalsink.h"):
+                continue
+            hp = os.path.join(root, f)
+            try:
+                if "Q_OBJECT" not in open(hp, errors="replace").read():
+                    continue
+            except OSError:
+                continue
+            base = "moc_" + f[:-2]
+            mocsrc = moc(hp, os.path.join(odir, base + ".cpp"))
+            jobs.append((mocsrc, os.path.join(odir, base + ".o"), fl))
     return compile_many(jobs)
 
 
